@@ -51,7 +51,7 @@ func init() {
 	})
 }
 
-var c12Ops = []string{"sm2.keygen", "sm2.sign", "sm2.encrypt", "sm2.kxinit", "sm2.kxrespond", "ecdh.keygen", "sm9.skeygen", "sm9.ekeygen", "sm9.sign", "sm9.wrap", "sm9.encrypt", "sm9.kxinit", "legacy.sign", "legacy.encrypt", "sm9.kxrespond", "sm2.signretry", "sm9.wrapretry"}
+var c12Ops = []string{"sm2.keygen", "sm2.sign", "sm2.encrypt", "sm2.kxinit", "sm2.kxrespond", "ecdh.keygen", "sm9.skeygen", "sm9.ekeygen", "sm9.sign", "sm9.wrap", "sm9.encrypt", "sm9.kxinit", "legacy.sign", "legacy.encrypt", "sm9.kxrespond", "sm2.signretry", "sm9.wrapretry", "sm2.envelope", "sm9.kxinit2"}
 
 func genC12(r *sim.Rand, tier string) *sim.Program {
 	p := &sim.Program{Prop: "C12"}
@@ -409,7 +409,7 @@ func c12Build(opn string, seed, msg []byte) (*c12Case, error) {
 				}
 				return ""
 			}}, nil
-	case "sm2.sign", "sm2.signretry", "sm2.encrypt", "sm2.kxinit", "sm2.kxrespond":
+	case "sm2.sign", "sm2.signretry", "sm2.encrypt", "sm2.envelope", "sm2.kxinit", "sm2.kxrespond":
 		priv, err := sm2.NewPrivateKey(scalarFrom(seed, "d"))
 		if err != nil {
 			return nil, err
@@ -444,16 +444,20 @@ func c12Build(opn string, seed, msg []byte) (*c12Case, error) {
 					return ""
 				}}, nil
 		case "sm2.signretry":
-			// the digest is chosen for the first in-range block k0 so that step A5 must discard it: r = 0 (e = -x1) or
-			// r + k = n (e = -k0 - x1); the signature must then be made with the NEXT acceptable block
+			// the digest is chosen for the first in-range block k0 so that step A5 / A6 must discard it: r = 0 (e = -x1),
+			// r + k = n (e = -k0 - x1) or s = 0 (e = k0/d - x1); the signature must then be made with the NEXT acceptable block
 			var dg []byte
 			cs := &c12Case{name: opn, order: n, hiOff: 1, usesPre: true}
 			cs.prepare = func(first *big.Int) {
 				k0 := new(big.Int).Set(first)
 				x1 := sm2m.ScalarBaseMult(k0).X
 				e := new(big.Int).Neg(x1)
-				if seed[0]&1 == 1 {
-					e.Sub(e, k0)
+				switch seed[0] % 3 {
+				case 1:
+					e.Sub(e, k0) // r + k = n
+				case 2:
+					// s = (1+d)^-1 (k - r d) = 0, i.e. r = k / d
+					e.Add(e, new(big.Int).Mul(k0, new(big.Int).ModInverse(d, n)))
 				}
 				e.Mod(e, n)
 				dg = e.FillBytes(make([]byte, 32))
@@ -466,7 +470,11 @@ func c12Build(opn string, seed, msg []byte) (*c12Case, error) {
 				}
 				r := new(big.Int).Add(new(big.Int).SetBytes(dg), sm2m.ScalarBaseMult(k).X)
 				r.Mod(r, n)
-				return r.Sign() == 0 || new(big.Int).Add(r, k).Cmp(n) == 0
+				if r.Sign() == 0 || new(big.Int).Add(r, k).Cmp(n) == 0 {
+					return true
+				}
+				s := new(big.Int).Sub(k, new(big.Int).Mul(r, d)) // s = 0 as well (the factor (1+d)^-1 is invertible)
+				return s.Mod(s, n).Sign() == 0
 			}
 			cs.run = func(rd io.Reader) ([][]byte, error) {
 				if dg == nil {
@@ -512,6 +520,41 @@ func c12Build(opn string, seed, msg []byte) (*c12Case, error) {
 					}
 					if !sm2m.Equal(c1, sm2m.ScalarBaseMult(k)) {
 						return fmt.Sprintf("C1 is not [k]G for the expected block %x", k)
+					}
+					return ""
+				}}, nil
+		case "sm2.envelope":
+			// sm2.MarshalEnvelopedPrivateKey draws a 16-octet SM4 key and then encrypts it to the recipient (EncryptASN1):
+			// the ephemeral scalar of that encryption must come from the caller's source, directly behind the key
+			symKey := derive(seed, "envelope key", 16)
+			return &c12Case{name: opn, order: n, hiOff: 1,
+				reject: func(k *big.Int) bool {
+					for _, x := range sm2m.MaskT(pub, k, 16) {
+						if x != 0 {
+							return false
+						}
+					}
+					return true
+				},
+				run: func(rd io.Reader) ([][]byte, error) {
+					env, err := sm2.MarshalEnvelopedPrivateKey(io.MultiReader(bytes.NewReader(symKey), rd), &priv.PublicKey, peer)
+					return [][]byte{env}, err
+				},
+				check: func(k *big.Int, outs [][]byte) string {
+					tr := sim.ParseAllTLV(outs[0])
+					if tr == nil || len(tr.Children) != 4 {
+						return "enveloped key is not a SEQUENCE of four elements"
+					}
+					c1, _, _, ok := sm2m.ParseCipherASN1(outs[0][tr.Children[1].Off:tr.Children[2].Off])
+					if !ok {
+						return "the encrypted symmetric key is not an ASN.1 SM2 ciphertext"
+					}
+					if !sm2m.Equal(c1, sm2m.ScalarBaseMult(k)) {
+						return fmt.Sprintf("C1 of the encrypted symmetric key is not [k]G for the expected block %x", k)
+					}
+					got, err := sm2.ParseEnvelopedPrivateKey(priv, outs[0])
+					if err != nil || got.D.Cmp(peer.D) != 0 {
+						return fmt.Sprintf("the envelope does not open to the enveloped key: %v", err)
 					}
 					return ""
 				}}, nil
@@ -747,7 +790,7 @@ func c12Build(opn string, seed, msg []byte) (*c12Case, error) {
 				}
 				return ""
 			}}, nil
-	case "sm9.wrap", "sm9.wrapretry", "sm9.encrypt", "sm9.kxinit", "sm9.kxrespond":
+	case "sm9.wrap", "sm9.wrapretry", "sm9.encrypt", "sm9.kxinit", "sm9.kxinit2", "sm9.kxrespond":
 		master, err := sm9.GenerateEncryptMasterKey(&sim.ScriptReader{Data: scalarFrom(seed, "ke")})
 		if err != nil {
 			return nil, err
@@ -898,6 +941,19 @@ func c12Build(opn string, seed, msg []byte) (*c12Case, error) {
 					}
 					return ""
 				}}, nil
+		case "sm9.kxinit2":
+			// a protocol object that has been initialised once (session abandoned) is initialised again: the second
+			// ephemeral secret must again be the first in-range block of the source handed to THAT call
+			return &c12Case{name: opn, order: c12SM9Order, hiOff: 1,
+				run: func(rd io.Reader) ([][]byte, error) {
+					ke := alice.NewKeyExchange([]byte("alice"), uid, 16, true)
+					if _, err := ke.InitKeyExchange(&sim.ScriptReader{Data: scalarFrom(seed, "first init")}, 3); err != nil {
+						return nil, err
+					}
+					ra, err := ke.InitKeyExchange(rd, 3)
+					return [][]byte{ra}, err
+				},
+				check: func(k *big.Int, outs [][]byte) string { return checkC(k, outs[0]) }}, nil
 		default:
 			return &c12Case{name: opn, order: c12SM9Order, hiOff: 1,
 				run: func(rd io.Reader) ([][]byte, error) {
